@@ -15,7 +15,7 @@ meta = {
   "property": pid, "seed": f"{pid}-{tag}", "base_commit": base,
   "breaks_clause": clause, "needs_to_manifest": needs,
   "demo_files": {os.path.basename(f): f for f in demo_files},
-  "demo_cmd": "copy the demo file to its path in the tree, then: go test -vet=off -count=1 -run TestSeedDemo ./" + os.path.dirname(demo_files[0]) + "/" if demo_files else "",
+  "demo_cmd": "copy the demo file to its path in the tree, then: go test -vet=off -count=1 -run SeedDemo ./" + os.path.dirname(demo_files[0]) + "/" if demo_files else "",
   "confirmed_by_me": {"build": "BUILD-OK" in verify, "demo_fails_with_change": "FAIL" in verify.split("WITHOUT")[0] if verify else None,
                       "demo_passes_without": ("ok " in verify.split("WITHOUT")[1].split("== existing")[0]) if "WITHOUT" in verify else None,
                       "existing_suite_passes_with_change": ("FAIL" not in verify.split("== existing")[1]) if "== existing" in verify else None,
